@@ -34,7 +34,7 @@ INSTANCES = [
 ]
 NSYM = 24
 SWEEP_LEN = {"quick": 3, "thorough": 4}
-RANDOM_RUNS = {"quick": 60000, "thorough": 3000000}
+RANDOM_RUNS = {"quick": 40000, "thorough": 3000000}
 
 
 def sweep_count(L):
